@@ -14,7 +14,7 @@ use std::collections::{HashSet, VecDeque};
 // ---------------------------------------------------------------------------------------------
 
 pub fn run_threads(w: &mut dyn WorldApi, g: &mut Gen, ev: &mut Ev, iters: u64, budget: &crate::Budget, replay: serde_json::Value, sigs: &mut HashSet<u64>) {
-    w.reset(3, 0);
+    w.reset(4, 0);
     for it in 0..iters {
         if budget.expired() || !ev.violations.is_empty() {
             break;
@@ -37,18 +37,21 @@ pub fn run_threads(w: &mut dyn WorldApi, g: &mut Gen, ev: &mut Ev, iters: u64, b
             }
         }
         w.copy(Slot::Map(0), Slot::Map(1));
+        w.copy(Slot::Map(0), Slot::Map(2));
         let base = if g.rng.chance(1, 2) { ViewProg::default() } else { ViewProg { root: Some(g.hkey(&m)), nav: vec![] } };
         let mut plan = ThreadPlan { base, depth: 1 + g.rng.below(3) as u8, seed: g.rng.next(), yields: g.rng.chance(2, 3), threaded: true, steps_per_worker: 2 + g.rng.below(10) };
         let before = w.shape(Slot::Map(0));
         let ra = guarded(|| w.threads(Slot::Map(0), &plan));
+        // the same plan once more on another copy: a second interleaving of the same scripts
+        let ra2 = guarded(|| w.threads(Slot::Map(2), &plan));
         plan.threaded = false;
         let rb = guarded(|| w.threads(Slot::Map(1), &plan));
         let mut rj = replay.clone();
         rj["iteration"] = json!(it);
         rj["plan"] = json!(format!("{:?}", plan));
-        let (oa, ob) = match (ra, rb) {
-            (Ok(a), Ok(b)) => (a, b),
-            (Err(p), _) | (_, Err(p)) => {
+        let (oa, ob, oa2) = match (ra, rb, ra2) {
+            (Ok(a), Ok(b), Ok(c)) => (a, b, c),
+            (Err(p), _, _) | (_, Err(p), _) | (_, _, Err(p)) => {
                 if p.harness() {
                     ev.inconclusive(&format!("harness error: {} at {}", p.msg, p.site()));
                 } else {
@@ -76,6 +79,11 @@ pub fn run_threads(w: &mut dyn WorldApi, g: &mut Gen, ev: &mut Ev, iters: u64, b
         for (_, wid) in &oa.log {
             h.u(*wid as u64);
         }
+        let order1: Vec<u8> = oa.log.iter().map(|x| x.1).collect();
+        let order2: Vec<u8> = oa2.log.iter().map(|x| x.1).collect();
+        if order1 != order2 {
+            ev.count("threads/plans_run_under_two_distinct_interleavings", 1);
+        }
         h.u(plan.seed);
         sigs.insert(h.get());
         ev.hash(h.get());
@@ -86,7 +94,8 @@ pub fn run_threads(w: &mut dyn WorldApi, g: &mut Gen, ev: &mut Ev, iters: u64, b
         // concurrent == sequential
         let a = w.trav(Slot::Map(0), Trav::Iter, None).items;
         let b = w.trav(Slot::Map(1), Trav::Iter, None).items;
-        if a != b || oa.roots != ob.roots || oa.writes != ob.writes {
+        let a2 = w.trav(Slot::Map(2), Trav::Iter, None).items;
+        if a != b || a2 != b || oa.roots != ob.roots || oa.writes != ob.writes || oa2.writes != ob.writes {
             ev.violation("C14/threads/concurrent-differs-from-sequential", format!("[{}] after mutating {} disjoint views on threads the map holds {:?}; the same scripts run sequentially give {:?}", w.kind(), oa.workers, a, b), rj);
             return;
         }
